@@ -473,9 +473,11 @@ def _apply_operation(
             nside_sparse = m._nside_sparse
             if dtype_out is None:
                 dtype = m._sparse_map.dtype
+                sentinel = m._sentinel
             else:
                 dtype = dtype_out
-            sentinel = m._sentinel
+                # The sentinel must be of the output type.
+                sentinel = np.dtype(dtype_out).type(m._sentinel)
             is_wide_mask = m._is_wide_mask
             wide_mask_width = m._wide_mask_width
         else:
